@@ -78,6 +78,7 @@ type opGen struct {
 	nfrag    int
 	nvar     int
 	features map[string]bool
+	fragsOn  map[string][]string // fragment names by type condition (for re-spreading: MultiSpread)
 }
 
 // GenOp draws a valid operation of the given kind ("query"/"mutation"/"subscription") against a schema.
@@ -335,7 +336,17 @@ func (g *opGen) selSetU(def *ast.Definition, depth, maxFields int, root bool, us
 			if g.r.Chance(1, 3) {
 				cond = "... "
 			}
+			if d := g.directive(); d != "" {
+				cond += strings.TrimSpace(d) + " "
+				g.features["directive-on-fragment"] = true
+			}
 			parts = append(parts, cond+g.selSetU(def, depth+1, 2, false, used))
+			continue
+		}
+		if !root && g.o.MultiSpread && len(g.fragsOn[def.Name]) > 0 && g.r.Chance(1, 3) {
+			// spread an EXISTING fragment again, at another place
+			g.features["multi-spread"] = true
+			parts = append(parts, "..."+hx.Pick(g.r, g.fragsOn[def.Name]))
 			continue
 		}
 		if !root && g.o.NamedFrags && g.r.Chance(1, 10) {
@@ -344,6 +355,10 @@ func (g *opGen) selSetU(def *ast.Definition, depth, maxFields int, root bool, us
 			g.nfrag++
 			body := g.selSetU(def, depth+1, 2, false, used)
 			g.frags = append(g.frags, "fragment "+fn+" on "+def.Name+" "+body)
+			if g.fragsOn == nil {
+				g.fragsOn = map[string][]string{}
+			}
+			g.fragsOn[def.Name] = append(g.fragsOn[def.Name], fn)
 			parts = append(parts, "..."+fn)
 			if g.o.MultiSpread && g.r.Chance(1, 3) {
 				parts = append(parts, "..."+fn)
